@@ -45,6 +45,7 @@ Proof.
     + intros L k HL H Hk. pose proof (p256_pos L). assert (k = 0) by nia. subst. cbn in Hk. lia.
   - intros t [].
   - split; [exact I|intros x []].
+  - intros r [].
 Qed.
 
 Lemma step_inv w e : MInv w -> MInv (fst (step w e)).
@@ -117,6 +118,32 @@ Proof.
   split; [intros t Ht; apply present_hash; [exact Hst|now apply Sv1]|].
   split; [intros j Hj; apply present_data; [exact Hst|now apply Sv2]|].
   split; [exact Hn|]. split; [rewrite Ec; reflexivity|exact Hp].
+Qed.
+
+(* ... and it stays served: in every later state (whatever uploads, faults, restarts and garbage
+   collections follow) the store still holds, for every tile of the tree of a signed mirror
+   checkpoint, that tile or the full tile that extends it, and for every entry bundle that bundle
+   or the full bundle, each with exactly the contents the honest log determines. *)
+Theorem c15_persist evs : let w := run evs init in
+  forall r, In r (w_signed w) ->
+    let n := ck_size (sr_ck r) in
+    (forall t, In t (tiles_needed n) ->
+       lookup (w_store w) (KHash t) =
+         Some (OHash (tile_hashes Hsh hnode LHs (tc_L t) (tc_N t) (tc_W t))) \/
+       lookup (w_store w) (KHash (mkT (tc_L t) (tc_N t) 256)) =
+         Some (OHash (tile_hashes Hsh hnode LHs (tc_L t) (tc_N t) 256))) /\
+    (forall j, j * 256 < n ->
+       lookup (w_store w) (KData j (N.min 256 (n - j * 256))) =
+         Some (OData (firstn (N.to_nat (N.min 256 (n - j * 256))) (skipn (N.to_nat (j * 256)) LOG))) \/
+       lookup (w_store w) (KData j 256) =
+         Some (OData (firstn (N.to_nat 256) (skipn (N.to_nat (j * 256)) LOG)))).
+Proof.
+  intros w r Hr n. pose proof (run_inv evs) as Hi. fold w in Hi.
+  destruct (i_persist _ _ _ _ _ _ _ Hi r Hr) as [A B]. fold n in A, B.
+  destruct (i_store _ _ _ _ _ _ _ Hi) as (Hst & _).
+  split.
+  - intros t Ht. destruct (A t Ht) as [P|P]; [left|right]; now apply present_hash.
+  - intros j Hj. destruct (B j Hj) as [P|P]; [left|right]; now apply present_data.
 Qed.
 
 (* ---------- authentication before write ---------- *)
